@@ -777,7 +777,7 @@ func runSchedule(c *schedCase, idx int, seed int, wait time.Duration) outcome {
 	for _, ch := range []chan struct{}{readerDone, peerDone} {
 		select {
 		case <-ch:
-		case <-time.After(stallTimeout):
+		case <-time.After(stallTimeout + 3*time.Second): // the reader's close echo waits up to 1 s for the lock
 			s.stalled = append(s.stalled, "reader/peer")
 		}
 	}
@@ -933,8 +933,11 @@ func (s *session) evaluate(idx int, payloads [][]byte, got []delivered, xClosed 
 		problem("C15/panic", "panic in a library call: %s", firstLine(p))
 	}
 	if len(s.stalled) > 0 {
-		if stallsSeen++; stallsSeen >= 3 {
-			stallTimeout = 2 * time.Second
+		switch stallsSeen++; {
+		case stallsSeen >= 3:
+			stallTimeout = 300 * time.Millisecond
+		case stallsSeen >= 1:
+			stallTimeout = 5 * time.Second
 		}
 		problem("C15/stall", "calls of %v did not return within %v after every transport operation was served", s.stalled, stallTimeout)
 	}
